@@ -143,6 +143,24 @@ struct Exec {
         return info;
     }
 
+    // blocking vara/vars/varm requests are routed through ncmpi_mput_* / ncmpi_mget_* for a quarter of the (op, rank) pairs
+    bool use_mvar(Op &op, int opi, Access &a, int kind, int ncid, int varid, const MPI_Offset *sp) {
+        if (kind != K_PUT && kind != K_GET) return false;
+        if ((opi * 7 + (op.coll ? 0 : r * 3) + (int)(c.p->seed % 4)) % 4 != 1) return false;   // every rank of a collective call must take the same API
+        if (c.p->cfg.flags & 4) return false;   // burst-buffer fragment rules are stated for the single-variable calls
+        int nd = -1; if (ncmpi_inq_varndims(ncid, op.var, &nd) != NC_NOERR || nd <= 0) return false;
+        auto eligible = [&](const Access &x) {
+            if (x.form != F_VARA && x.form != F_VARS && x.form != F_VARM) return false;
+            if (!(x.invalid == INV_NONE || x.invalid == INV_BAD_START || x.invalid == INV_BAD_EDGE || x.invalid == INV_NEG_COUNT || x.invalid == INV_BAD_STRIDE)) return false;
+            if (x.erange_k >= 0 || x.erange >= 0 || x.start.size() != (size_t)nd || x.count.size() != x.start.size()) return false;
+            if (x.form != F_VARA && !x.stride.empty() && x.stride.size() != x.start.size()) return false;
+            return true;
+        };
+        if (op.coll) { for (auto &x : op.acc) if (x.active && !eligible(x)) return false; }
+        else if (!eligible(a)) return false;
+        if (a.active && (!sp || varid != op.var)) return false;
+        return true;
+    }
     // ---- data access
     int issue(Op &op, int opi, Access &a, int kind, int ncid, std::shared_ptr<UserBuf> &ub, int *req) {
         int varid = op.var;
@@ -186,6 +204,19 @@ struct Exec {
             }
             rc = api_vard(kind, op.coll, ncid, varid, ft, ub->ptr(), ub->bufcount, ub->btype);
             if (own) MPI_Type_free(&ft);
+        } else if (use_mvar(op, opi, a, kind, ncid, varid, sp)) {
+            // the same request through the multi-variable API: two entries, one of them a zero-length request to the same variable (with unit stride) - by the API's definition
+            // (each entry is posted as a nonblocking request, one wait completes them) this is the single-variable call
+            int nd = 0; ncmpi_inq_varndims(ncid, varid, &nd);
+            std::vector<MPI_Offset> zs((size_t)nd, 0), zc((size_t)nd, 0), zone((size_t)nd, 1);
+            int real = (opi % 2 == 0) ? 1 : 0, dummy = 1 - real;
+            int vids[2] = {varid, varid}; MPI_Offset *S[2], *C[2], *SD[2], *IM[2]; void *B[2]; MPI_Offset bc[2]; MPI_Datatype bt[2];
+            S[real] = st.data(); C[real] = ct.data(); SD[real] = sd.empty() ? zone.data() : sd.data(); IM[real] = im.empty() ? nullptr : im.data(); B[real] = ub->ptr(); bc[real] = ub->bufcount; bt[real] = ub->btype;
+            S[dummy] = zs.data(); C[dummy] = zc.data(); SD[dummy] = zone.data(); IM[dummy] = nullptr; B[dummy] = ub->ptr(); bc[dummy] = 0; bt[dummy] = MPI_DATATYPE_NULL;
+            bool anyim = IM[real] != nullptr; std::vector<MPI_Offset> dim_im((size_t)nd, 1); if (anyim) IM[dummy] = dim_im.data();
+            c.res->probes["mvar_api_calls"]++;
+            if (a.flexible) rc = api_m_flex(kind, a.form, op.coll, ncid, 2, vids, S, C, a.form == F_VARA ? nullptr : SD, a.form == F_VARM ? (anyim ? IM : nullptr) : nullptr, B, bc, bt);
+            else rc = api_m_typed(kind, a.form, op.coll, ncid, 2, vids, S, C, a.form == F_VARA ? nullptr : SD, a.form == F_VARM ? (anyim ? IM : nullptr) : nullptr, B, a.memtype);
         } else if (a.flexible) rc = api_flex(kind, a.form, op.coll, ncid, varid, sp, cp, sdp, imp, ub->ptr(), ub->bufcount, ub->btype, req);
         else rc = api_typed(kind, a.form, op.coll, ncid, varid, sp, cp, sdp, imp, ub->ptr(), a.memtype, req);
         sim::set_in_lib(false);
@@ -232,6 +263,10 @@ struct Exec {
             int nd = 0; ncmpi_inq_varndims(ncid, op.var, &nd); st.assign(std::max(nd, 1), 0); ct.assign(std::max(nd, 1), 0);
             int fam = 0; for (auto &x : op.acc) if (x.active) { fam = x.form == F_VARN ? 1 : x.form == F_VARD ? 2 : 0; break; }
             int dummy = 0; sim::set_in_lib(true); int rc;
+            if (fam == 0 && use_mvar(op, opi, a, is_read ? K_GET : K_PUT, ncid, op.var, st.data())) {
+                int vid = op.var; MPI_Offset *S[1] = {st.data()}, *C[1] = {ct.data()}; void *B[1] = {&dummy}; MPI_Offset bc[1] = {0}; MPI_Datatype bt[1] = {MPI_DATATYPE_NULL};
+                rc = api_m_flex(is_read ? K_GET : K_PUT, F_VARA, true, ncid, 1, &vid, S, C, nullptr, nullptr, B, bc, bt);
+            } else
             if (fam == 1) rc = is_read ? ncmpi_get_varn_all(ncid, op.var, 0, nullptr, nullptr, &dummy, 0, MPI_INT) : ncmpi_put_varn_all(ncid, op.var, 0, nullptr, nullptr, &dummy, 0, MPI_INT);
             else if (fam == 2) rc = is_read ? ncmpi_get_vard_all(ncid, op.var, MPI_DATATYPE_NULL, &dummy, 0, MPI_INT) : ncmpi_put_vard_all(ncid, op.var, MPI_DATATYPE_NULL, &dummy, 0, MPI_INT);
             else rc = is_read ? ncmpi_get_vara_all(ncid, op.var, st.data(), ct.data(), &dummy, 0, MPI_INT) : ncmpi_put_vara_all(ncid, op.var, st.data(), ct.data(), &dummy, 0, MPI_INT);
